@@ -1,7 +1,7 @@
 (* C01: the chunk index written by ChunkBTreeWriter is read back entry for entry by ParseBTreeV1Node +
    CollectAllChunks; lemmas for Props/C01.v (the C01_index theorems).  Model: Model/ChunkIndex.v. *)
 From HV Require Import Base.Prelude Model.Chunk Base.Outcome Base.Bytes Model.RobustTerm Model.ChunkIndex.
-From HV Require Import Proofs.ChunkLists Proofs.ChunkCoords Proofs.RobustTerm.
+From HV Require Import Proofs.ChunkLists Proofs.ChunkSpec Proofs.ChunkCoords Proofs.ChunkTiling Proofs.RobustTerm.
 From Coq Require Import Permutation.
 
 Local Open Scope N_scope.
@@ -383,9 +383,9 @@ Qed.
 Lemma serialize_leaf_nonempty dim es : serialize_leaf dim es <> [].
 Proof. unfold serialize_leaf, node_header, SIG_TREE. discriminate. Qed.
 
-Theorem index_roundtrip cdims es f eof :
+Theorem index_roundtrip_at cdims es f eof :
   index_pre cdims es eof = true ->
-  exists f',
+  let f' := write_at f eof (serialize_leaf (length cdims) (sort_entries es)) in
     write_index (length cdims) es f eof = Ok (f', eof + blen (serialize_leaf (length cdims) es), eof) /\
     read_index f' eof 8 cdims = COk (map (expected_entry cdims) (sort_entries es)).
 Proof.
@@ -393,7 +393,7 @@ Proof.
   set (dim := length cdims) in *.
   set (buf := serialize_leaf dim (sort_entries es)).
   assert (Hbl : blen buf = blen (serialize_leaf dim es)) by (apply blen_serialize_sorted; auto).
-  exists (write_at f eof buf). split.
+  fold dim. fold buf. cbv zeta. split.
   - unfold write_index.
     replace (forallb (fun e => Nat.eqb (length (w_coord e)) dim) es) with true.
     2:{ symmetry. apply forallb_forall. intros e Hin. apply Nat.eqb_eq.
@@ -411,6 +411,16 @@ Proof.
     + apply sort_entries_nonempty; auto.
     + now rewrite sort_entries_length.
     + fold dim. fold buf. rewrite Hbl. exact Hm.
+Qed.
+
+Theorem index_roundtrip cdims es f eof :
+  index_pre cdims es eof = true ->
+  exists f',
+    write_index (length cdims) es f eof = Ok (f', eof + blen (serialize_leaf (length cdims) es), eof) /\
+    read_index f' eof 8 cdims = COk (map (expected_entry cdims) (sort_entries es)).
+Proof.
+  intros H. destruct (index_roundtrip_at cdims es f eof H) as [P1 P2].
+  eexists. split; [exact P1|exact P2].
 Qed.
 
 (* ------------------------------------------------------------------ the count field: where the round trip ends *)
@@ -503,4 +513,270 @@ Proof.
     { unfold body, SS. cbn [flat_map app]. unfold enc_entry at 1. now rewrite <- !app_assoc. }
     rewrite K1, K2. cbn [obind].
     rewrite E1 in K3. fold dim in K3. rewrite K3. reflexivity.
+Qed.
+
+(* ------------------------------------------------------------------ (ii) coordinate lookup *)
+
+Lemma list_eqb_N_eq (a : list N) : forall b, list_eqb N.eqb a b = true <-> a = b.
+Proof.
+  induction a as [|x a IH]; intros [|y b]; cbn [list_eqb].
+  - split; reflexivity.
+  - split; discriminate.
+  - split; discriminate.
+  - rewrite andb_true_iff, N.eqb_eq, IH. split; [intros [-> ->]; reflexivity|intros [= -> ->]; auto].
+Qed.
+
+Lemma length_scaled_of_key cdims key : length key = length cdims -> length (scaled_of_key cdims key) = length cdims.
+Proof.
+  unfold scaled_of_key. revert cdims. induction key as [|k r IH]; intros [|c cs] H; try discriminate; auto.
+  cbn [zipWith length] in *. f_equal. apply IH. lia.
+Qed.
+
+(* the reader's coordinate of a written entry *)
+Definition sc_of (cdims : list N) (e : wentry) : list N := scaled_of_key cdims (w_coord e).
+
+Lemma lookup_none cdims L c :
+  Forall (fun e => length (w_coord e) = length cdims) L ->
+  ~ In c (map (sc_of cdims) L) -> lookup_chunk (length cdims) (map (expected_entry cdims) L) c = None.
+Proof.
+  induction L as [|x r IH]; intros Hl Hn; [reflexivity|].
+  apply Forall_cons_iff in Hl as [Hx Hr].
+  cbn [map lookup_chunk expected_entry]. cbn [map] in Hn.
+  rewrite IH by (auto; intros Hin; apply Hn; right; exact Hin).
+  unfold k_scaled. cbn [fst].
+  rewrite firstn_all2 by (rewrite length_scaled_of_key; auto).
+  destruct (coords_eqb (scaled_of_key cdims (w_coord x)) c) eqn:E; [|reflexivity].
+  apply list_eqb_N_eq in E. exfalso. apply Hn. left. exact E.
+Qed.
+
+(* when the reader's key -> coordinate map is injective on the written keys, the lookup of the coordinate of a
+   written entry returns exactly that entry's address and size, in whatever order the entries were collected *)
+Lemma lookup_found cdims L e :
+  Forall (fun e => length (w_coord e) = length cdims) L ->
+  NoDup (map (sc_of cdims) L) -> In e L ->
+  lookup_chunk (length cdims) (map (expected_entry cdims) L) (sc_of cdims e) = Some (w_addr e, w_nbytes e).
+Proof.
+  induction L as [|x r IH]; intros Hl Hnd Hin; [destruct Hin|].
+  apply Forall_cons_iff in Hl as [Hx Hr]. cbn [map] in Hnd. apply NoDup_cons_iff in Hnd as [Hnx Hnd].
+  cbn [map lookup_chunk expected_entry].
+  destruct Hin as [->|Hin].
+  - rewrite lookup_none by auto.
+    unfold k_scaled, k_nbytes. cbn [fst snd].
+    rewrite firstn_all2 by (rewrite length_scaled_of_key; auto).
+    replace (coords_eqb (scaled_of_key cdims (w_coord e)) (sc_of cdims e)) with true; [reflexivity|].
+    symmetry. apply list_eqb_N_eq. reflexivity.
+  - rewrite IH by auto. reflexivity.
+Qed.
+
+Theorem index_lookup cdims es f eof :
+  index_pre cdims es eof = true ->
+  NoDup (map (sc_of cdims) es) ->
+  exists f' chunks,
+    write_index (length cdims) es f eof = Ok (f', eof + blen (serialize_leaf (length cdims) es), eof) /\
+    read_index f' eof 8 cdims = COk chunks /\
+    (forall e, In e es -> lookup_chunk (length cdims) chunks (sc_of cdims e) = Some (w_addr e, w_nbytes e)) /\
+    (forall c, ~ In c (map (sc_of cdims) es) -> lookup_chunk (length cdims) chunks c = None).
+Proof.
+  intros Hpre Hnd. destruct (index_roundtrip cdims es f eof Hpre) as (f' & Hw & Hr).
+  destruct (index_pre_spec _ _ _ Hpre) as (Hne & He & _).
+  exists f', (map (expected_entry cdims) (sort_entries es)). split; [exact Hw|]. split; [exact Hr|].
+  pose proof (sort_entries_perm es) as HP.
+  assert (Hl : Forall (fun e => length (w_coord e) = length cdims) (sort_entries es)).
+  { apply sort_entries_Forall, entries_dim. exact He. }
+  split.
+  - intros e Hin. apply lookup_found; auto.
+    + eapply Permutation_NoDup; [|exact Hnd]. apply Permutation_map, Permutation_sym, HP.
+    + eapply Permutation_in; [apply Permutation_sym, HP|exact Hin].
+  - intros c Hc. apply lookup_none; auto. intros Hin. apply Hc.
+    eapply Permutation_in; [apply Permutation_map, HP|exact Hin].
+Qed.
+
+(* the writer's keys: offsets of grid chunks.  The reader's division by the chunk extents inverts the writer's
+   multiplication, so different chunk coordinates are never confused (the class of seeded change C01-c) *)
+Lemma grid_keys_injective cdims (coords : list (list N)) :
+  posl cdims -> Forall (fun c => length c = length cdims) coords -> NoDup coords ->
+  NoDup (map (fun c => scaled_of_key cdims (chunk_key cdims c)) coords).
+Proof.
+  intros Hp Hl Hnd. rewrite (map_ext_in _ (fun c => c)); [rewrite map_id; exact Hnd|].
+  intros c Hin. rewrite Forall_forall in Hl. apply scaled_key_id; auto.
+Qed.
+
+(* ------------------------------------------------------------------ (iii) index + chunk bytes + placement *)
+
+Lemma bind_fold_err {A B} (f : A -> B -> res A) l e :
+  fold_left (fun acc b => match acc with Chunk.Ok x => f x b | Chunk.Err e => Chunk.Err e end) l (Chunk.Err e) = Chunk.Err e.
+Proof. induction l; cbn [fold_left]; auto. Qed.
+Lemma bind_fold_cons {A B} (f : A -> B -> res A) x l a :
+  bind_fold f (x :: l) a = match f a x with Chunk.Ok a' => bind_fold f l a' | Chunk.Err e => Chunk.Err e end.
+Proof. unfold bind_fold. cbn [fold_left]. destruct (f a x); [reflexivity|apply bind_fold_err]. Qed.
+
+Lemma total_elements_prod dims : prodN dims < 18446744073709551616 -> posl dims -> total_elements dims = prodN dims.
+Proof.
+  unfold total_elements. intros Hb Hp.
+  assert (G : forall l t, posl l -> 0 < t -> t * prodN l < 18446744073709551616 ->
+              fold_left (fun t d => wrap64 (t * d)) l t = t * prodN l).
+  { induction l as [|d r IH]; intros t Hl Ht Hlt; [rewrite ?prodN_cons in *|rewrite prodN_cons in *]; cbn [fold_left].
+    - unfold prodN. cbn [fold_right]. lia.
+    - apply Forall_cons_iff in Hl as [Hd Hr].
+      pose proof (prodN_pos r Hr) as Hpr.
+      assert (Hw : wrap64 (t * d) = t * d) by (unfold wrap64; apply N.mod_small; nia).
+      rewrite Hw, IH; auto; nia. }
+  rewrite G; auto; lia.
+Qed.
+
+Section Compose.
+Variables (dims cdims : list N) (esz : N) (data : bytes).
+Hypothesis Hshape : shape_ok dims cdims esz.
+Hypothesis Hdata : lenN data = vol dims esz.
+
+Let xp (c : list N) : bytes := extract_padded dims cdims esz data c.
+
+(* what the file holds for a written entry: a valid size and, at its address, the padded chunk of its coordinate *)
+Definition entry_stored (f : bytes) (e : wentry) : Prop :=
+  validate_size (w_nbytes e) MAX_CHUNK = true /\
+  read_bytes_at f (w_addr e) (w_nbytes e) = Some (xp (sc_of cdims e)).
+
+Lemma place_chunks_fold f : forall (S : list wentry) raw,
+  length cdims = length dims ->
+  Forall (fun e => length (w_coord e) = length cdims) S -> Forall (entry_stored f) S ->
+  place_chunks f dims cdims esz (map (expected_entry cdims) S) raw
+  = match bind_fold (fun full kc => copy_chunk_to_array (snd kc) full (scaled_of_key cdims (fst kc)) cdims dims esz)
+                    (map (fun e => (w_coord e, xp (sc_of cdims e))) S) raw with
+    | Chunk.Ok d => COk d
+    | Chunk.Err c => if c =? E_RANK0 then CPanic else CErr
+    end.
+Proof.
+  intros S raw Hc. revert raw. induction S as [|e r IH]; intros raw Hl Hs; [reflexivity|].
+  apply Forall_cons_iff in Hl as [Hl0 Hlr]. apply Forall_cons_iff in Hs as [[Hv Hrd] Hsr].
+  cbn [map place_chunks expected_entry]. unfold k_nbytes, k_scaled. cbn [fst snd].
+  rewrite Hv. cbn [negb]. rewrite Hrd. rewrite bind_fold_cons. cbn [fst snd].
+  rewrite firstn_all2 by (rewrite length_scaled_of_key; lia).
+  rewrite firstn_all2 by lia.
+  unfold sc_of. destruct (copy_chunk_to_array _ raw _ cdims dims esz) as [raw'|code]; [|reflexivity].
+  apply IH; auto.
+Qed.
+
+Theorem read_chunked_file_correct f root (es : list wentry) :
+  vol dims esz <= MAX_CHUNK * 1024 -> esz <= 4294967295 ->
+  (exists S, Permutation S es /\ read_index f root 8 cdims = COk (map (expected_entry cdims) S)) ->
+  Permutation (map w_coord es) (map (chunk_key cdims) (all_chunk_coords dims cdims)) ->
+  Forall (entry_stored f) es ->
+  read_chunked_file f root 8 dims cdims esz = COk data.
+Proof.
+  intros Hvol Hesz (S & HP & Hri) Hkeys Hst.
+  destruct Hshape as (Hne & Hc & Hpd & Hpc & Hez).
+  unfold read_chunked_file. replace (Nat.ltb (length cdims) (length dims)) with false
+    by (symmetry; apply Nat.ltb_ge; lia).
+  unfold read_index in Hri.
+  destruct (parse_node f root 8 (length cdims) cdims) as [nd| |]; try discriminate.
+  assert (Hpp : 0 < prodN dims) by (apply prodN_pos; exact Hpd).
+  assert (Hv : vol dims esz = prodN dims * esz) by apply vol_prod.
+  unfold MAX_CHUNK in *.
+  rewrite total_elements_prod by (auto; nia).
+  replace (negb (prodN dims =? 0) && negb (esz =? 0) && (U64MAX / esz <? prodN dims)) with false.
+  2:{ symmetry. apply andb_false_iff. right. apply N.ltb_ge. unfold U64MAX.
+      apply N.div_le_lower_bound; nia. }
+  unfold validate_size at 1. rewrite <- Hv.
+  replace (negb (vol dims esz =? 0) && (vol dims esz <=? 1073741824 * 1024)) with true
+    by (symmetry; apply andb_true_iff; split; [apply negb_true_iff, N.eqb_neq; nia|apply N.leb_le; lia]).
+  cbn [negb]. rewrite Hri.
+  (* the collected entries: coordinates, sizes, bytes *)
+  assert (HinS : forall e, In e S -> exists c, In c (all_chunk_coords dims cdims) /\ w_coord e = chunk_key cdims c).
+  { intros e Hin. apply (Permutation_in _ HP) in Hin.
+    assert (Hk : In (w_coord e) (map w_coord es)) by (apply in_map; exact Hin).
+    apply (Permutation_in _ Hkeys) in Hk. apply in_map_iff in Hk as (c & Hck & Hcin). exists c. auto. }
+  assert (Hclen : forall c, In c (all_chunk_coords dims cdims) -> length c = length cdims).
+  { intros c Hin. rewrite all_chunk_coords_enum in Hin by auto. apply in_coords_length in Hin.
+    rewrite Hin, length_num_chunks; auto. }
+  assert (Hlen : Forall (fun e => length (w_coord e) = length cdims) S).
+  { apply Forall_forall. intros e Hin. destruct (HinS e Hin) as (c & Hcin & ->).
+    unfold chunk_key. specialize (Hclen c Hcin). clear - Hclen. revert cdims Hclen.
+    induction c as [|x c IH]; intros [|k ks] H; try discriminate; auto. cbn [zipWith length] in *. f_equal. apply IH. lia. }
+  rewrite place_chunks_fold; auto.
+  2:{ eapply Permutation_Forall; [apply Permutation_sym, HP|exact Hst]. }
+  (* the same fold as read_chunked on (key, chunk) pairs of a permutation of the grid *)
+  assert (Hmap : map (fun e => (w_coord e, xp (sc_of cdims e))) S
+                 = map (fun c => (chunk_key cdims c, extract_padded dims cdims esz data c)) (map (sc_of cdims) S)).
+  { rewrite map_map. apply map_ext_in. intros e Hin. destruct (HinS e Hin) as (c & Hcin & Hk).
+    unfold xp, sc_of. rewrite Hk, scaled_key_id by (auto; apply Hclen; auto). reflexivity. }
+  rewrite Hmap.
+  assert (Hperm : Permutation (map (sc_of cdims) S) (all_chunk_coords dims cdims)).
+  { rewrite (Permutation_map (sc_of cdims) HP).
+    unfold sc_of. rewrite <- (map_map w_coord (scaled_of_key cdims)).
+    rewrite (Permutation_map (scaled_of_key cdims) Hkeys). rewrite map_map.
+    rewrite (map_ext_in _ (fun c => c)); [rewrite map_id; reflexivity|].
+    intros c Hin. apply scaled_key_id; auto. }
+  pose proof (chunk_tiling_any_order dims cdims esz data (map (sc_of cdims) S)
+                (conj Hne (conj Hc (conj Hpd (conj Hpc Hez)))) Hdata Hperm) as Ht.
+  unfold read_chunked in Ht. rewrite existsb_zero_pos in Ht by auto.
+  fold (vol dims esz) in Ht. rewrite Ht. reflexivity.
+Qed.
+End Compose.
+
+(* chunk bytes written before the index (below its address) are still read after the index has been written *)
+Lemma read_at_some_bound f off n b : read_at f off n = Some b -> off + n <= blen f.
+Proof.
+  unfold read_at. destruct ((off <=? MAXINT64) && (off + n <=? blen f)) eqn:E; [|discriminate].
+  intros _. apply andb_true_iff in E as [_ E]. apply N.leb_le in E. exact E.
+Qed.
+
+Lemma wrap64_no_overflow off n :
+  off <= 9223372036854775807 -> n < 18446744073709551616 -> off <= wrap64 (off + n) -> wrap64 (off + n) = off + n.
+Proof.
+  intros Ho Hn Hle. unfold wrap64 in *. apply N.mod_small.
+  destruct (N.lt_ge_cases (off + n) 18446744073709551616) as [|Hge]; [assumption|exfalso].
+  assert (Hm : (off + n) mod 18446744073709551616 = off + n - 18446744073709551616).
+  { symmetry. apply (N.mod_unique _ _ 1); lia. }
+  rewrite Hm in Hle. lia.
+Qed.
+
+Lemma read_at_some_off f off n b : read_at f off n = Some b -> off <= 9223372036854775807.
+Proof.
+  unfold read_at. destruct (off <=? MAXINT64) eqn:E; [|discriminate].
+  intros _. apply N.leb_le in E. exact E.
+Qed.
+
+Lemma read_bytes_at_write_at_before f buf a off n b :
+  off + n <= a -> n <> 0 -> n < 18446744073709551616 ->
+  read_bytes_at f off n = Some b -> read_bytes_at (write_at f a buf) off n = Some b.
+Proof.
+  intros Ha Hn Hn64. unfold read_bytes_at. replace (n =? 0) with false by (symmetry; apply N.eqb_neq; auto).
+  destruct ((wrap64 (off + n) <? off) || (MAXINT64 <? wrap64 (off + n))) eqn:E; [discriminate|].
+  apply orb_false_iff in E as [E1 E2]. apply N.ltb_ge in E1.
+  destruct (read_at f (wrap64 (off + n) - 1) 1) as [p|] eqn:Ep; [|discriminate].
+  intros Hr. pose proof (read_at_some_bound _ _ _ _ Hr) as Hb.
+  pose proof (read_at_some_off _ _ _ _ Hr) as Hoff.
+  pose proof (wrap64_no_overflow off n Hoff Hn64 E1) as Hw.
+  rewrite Hw in Ep. rewrite Hw.
+  pose proof (read_at_some_bound _ _ _ _ Ep) as Hpb.
+  assert (G1 : off + n - 1 + 1 <= a) by (clear - Ha Hn; lia).
+  rewrite (write_at_before f buf a (off + n - 1) 1 G1 Hpb), Ep.
+  rewrite (write_at_before f buf a off n Ha Hb). exact Hr.
+Qed.
+
+(* (iii) for every rank, grid, element size and data: once the chunk loop has left every chunk's bytes at the address
+   recorded for it, below the address the index is allocated at, writing the index and reading with the model reader
+   returns the data.  (Filters: none - filterPipeline == nil / identity.) *)
+Theorem chunked_end_to_end_partial dims cdims esz data (es : list wentry) f eof :
+  shape_ok dims cdims esz -> lenN data = vol dims esz ->
+  vol dims esz <= MAX_CHUNK * 1024 -> esz <= 4294967295 ->
+  index_pre cdims es eof = true ->
+  Permutation (map w_coord es) (map (chunk_key cdims) (all_chunk_coords dims cdims)) ->
+  Forall (fun e => entry_stored dims cdims esz data f e /\ w_addr e + w_nbytes e <= eof) es ->
+  exists f',
+    write_index (length dims) es f eof = Ok (f', eof + blen (serialize_leaf (length cdims) es), eof) /\
+    read_chunked_file f' eof 8 dims cdims esz = COk data.
+Proof.
+  intros Hs Hd Hv He Hpre Hk Hst.
+  destruct (index_roundtrip_at cdims es f eof Hpre) as (Hw & Hr).
+  assert (Hc : length cdims = length dims) by (destruct Hs as (_ & Hc & _); exact Hc).
+  eexists. split; [rewrite <- Hc; exact Hw|].
+  apply (read_chunked_file_correct dims cdims esz data Hs Hd _ eof es Hv He).
+  - exists (sort_entries es). split; [apply sort_entries_perm|exact Hr].
+  - exact Hk.
+  - (* the index write keeps the chunk bytes *)
+    eapply Forall_impl; [|exact Hst]. intros e [[Hvs Hrd] Hlt]. split; [exact Hvs|].
+    unfold validate_size, MAX_CHUNK in Hvs. apply andb_true_iff in Hvs as [Hz Hle].
+    apply negb_true_iff, N.eqb_neq in Hz. apply N.leb_le in Hle.
+    apply read_bytes_at_write_at_before; [exact Hlt|exact Hz|lia|exact Hrd].
 Qed.
